@@ -35,7 +35,19 @@ theorem C02_source_facts :
     missingAuthHeadersForbidden = true ∧ randomIsHexOfCryptoRandHalfLength = true ∧
     outgoingRandomLength = 64 ∧ outgoingPostSites = outgoingPostSitesSigned ∧ 0 < outgoingPostSites ∧
     roomHandlerSteps = ["bruteforce-check", "bruteforce-429", "backend-nil", "read-backend-header",
-      "header:lookup-or-403", "noheader:compat-else-search-or-403", "validate-or-403", "decode"] := by decide
+      "header:lookup-or-403", "noheader:compat-else-search-or-403", "validate-or-403", "decode"] ∧
+    -- the lookup of the backend a URL belongs to, statement by statement
+    lookupEntryProgram = ["if strings.Contains(u.Host, \":\") && hasStandardPort(u) { u.Host = u.Hostname() }",
+      "if hasDotSegments(u) { return nil }", "return b.storage.GetBackend(u)"] ∧
+    lookupStaticProgram = ["s.mu.RLock()", "defer s.mu.RUnlock()",
+      "if _, found := s.backends[u.Host]; !found { if s.allowAll { return s.compatBackend } return nil }",
+      "return s.getBackendLocked(u)"] ∧
+    lookupStorages = lookupStoragesThroughCommon ∧
+    lookupProgram = ["entries, found := s.backends[u.Host]", "if !found { return nil }", "url := u.String()",
+      stmtLookupAppendsSlash, stmtLookupLoop, "return nil"] ∧
+    configUrlProgram = ["u, _ := GetStringOptionWithEnv(config, id, \"url\")", stmtConfigAppendsSlash,
+      "if strings.Contains(parsed.Host, \":\") && hasStandardPort(parsed) { parsed.Host = parsed.Hostname() u = parsed.String() }"] := by
+  decide +kernel
 
 /-! ## 1. hex is injective: `Bytes.toHex_injective` (Basic/Bytes.lean) -/
 
@@ -364,7 +376,172 @@ theorem C02_outgoing_other_secret (mac : Mac) (hideal : IdealMac mac) (b : Backe
     rw [validate_iff, checksumOf_eq_stmt]
   exact C02_tamper_rejected mac hideal hv (Or.inl ⟨rfl, Or.inr hne⟩)
 
-/-! ## 7. Non-vacuity -/
+/-! ## 7. Which backend a URL belongs to
+
+The backend header of a room API request and the target of an outgoing request are URLs; the secret
+used is that of the backend `getBackendLocked` finds.  The spec (`under`, `owners`) says what it means
+for a URL to belong to a backend by the components of the URLs; the model compares strings as the
+code does (statements read from the source). -/
+
+theorem splitSlash_ne_nil (u : List Char) : splitSlash u ≠ [] := by
+  cases u with
+  | nil => simp [splitSlash]
+  | cons c cs =>
+    unfold splitSlash
+    split
+    · simp
+    · split <;> simp
+
+theorem splitSlash_cons_slash (cs : List Char) : splitSlash ('/' :: cs) = [] :: splitSlash cs := by
+  simp [splitSlash]
+
+theorem splitSlash_cons_other (c : Char) (cs : List Char) (h : c ≠ '/') :
+    ∃ s ss, splitSlash cs = s :: ss ∧ splitSlash (c :: cs) = (c :: s) :: ss := by
+  cases hs : splitSlash cs with
+  | nil => exact absurd hs (splitSlash_ne_nil cs)
+  | cons s ss => exact ⟨s, ss, rfl, by rw [splitSlash]; simp [h, hs]⟩
+
+theorem splitSlash_nil : splitSlash [] = [[]] := by simp [splitSlash]
+
+/-- A `'/'`-terminated string is a prefix of another `'/'`-terminated string iff its pieces between the
+slashes are the leading pieces of the other. -/
+theorem prefix_slash_eq_components (p u : List Char) :
+    (p ++ ['/']).isPrefixOf (u ++ ['/']) = (splitSlash p).isPrefixOf (splitSlash u) := by
+  induction p generalizing u with
+  | nil =>
+    cases u with
+    | nil => simp [splitSlash_nil]
+    | cons b u' =>
+      by_cases hb : b = '/'
+      · subst hb; rw [splitSlash_cons_slash, splitSlash_nil]; simp
+      · obtain ⟨s, ss, _, h2⟩ := splitSlash_cons_other b u' hb
+        rw [h2, splitSlash_nil]
+        have : ('/' == b) = false := by simp [Ne.symm hb]
+        simp [List.isPrefixOf_cons_cons, this]
+  | cons a p' ih =>
+    cases u with
+    | nil =>
+      by_cases ha : a = '/'
+      · subst ha
+        cases hs : splitSlash p' with
+        | nil => exact absurd hs (splitSlash_ne_nil p')
+        | cons s ss => rw [splitSlash_cons_slash, splitSlash_nil, hs]; simp
+      · obtain ⟨s, ss, _, h2⟩ := splitSlash_cons_other a p' ha
+        rw [h2, splitSlash_nil]
+        have : (a == '/') = false := by simp [ha]
+        simp [List.isPrefixOf_cons_cons, this]
+    | cons b u' =>
+      simp only [List.cons_append, List.isPrefixOf_cons_cons]
+      by_cases ha : a = '/' <;> by_cases hb : b = '/'
+      · subst ha hb; rw [splitSlash_cons_slash, splitSlash_cons_slash, ih]; simp
+      · subst ha
+        obtain ⟨s, ss, _, h2⟩ := splitSlash_cons_other b u' hb
+        rw [h2, splitSlash_cons_slash]
+        have : ('/' == b) = false := by simp [Ne.symm hb]
+        simp [List.isPrefixOf_cons_cons, this]
+      · subst hb
+        obtain ⟨s, ss, _, h2⟩ := splitSlash_cons_other a p' ha
+        rw [h2, splitSlash_cons_slash]
+        have : (a == '/') = false := by simp [ha]
+        simp [List.isPrefixOf_cons_cons, this]
+      · obtain ⟨s, ss, h1, h2⟩ := splitSlash_cons_other a p' ha
+        obtain ⟨t, ts, h3, h4⟩ := splitSlash_cons_other b u' hb
+        rw [h2, h4, ih u', h1, h3]
+        simp only [List.isPrefixOf_cons_cons]
+        by_cases hab : a = b
+        · subst hab; simp
+        · have : (a == b) = false := by simp [hab]
+          simp [this]
+
+theorem lookup_facts :
+    lookupProgram.contains stmtLookupAppendsSlash = true ∧ lookupProgram.contains stmtLookupLoop = true ∧
+    configUrlProgram.contains stmtConfigAppendsSlash = true := by decide +kernel
+
+theorem eq_stripSlash_append (u : List Char) (h : endsSlash u = true) : u = stripSlash u ++ ['/'] := by
+  have hl : u.getLast? = some '/' := by simpa [endsSlash] using h
+  simp only [stripSlash, h, if_true]
+  obtain ⟨ys, hy⟩ := List.getLast?_eq_some_iff.mp hl
+  rw [hy]; simp
+
+theorem slashTerm_eq (u : List Char) : slashTerm u = stripSlash u ++ ['/'] := by
+  by_cases h : endsSlash u = true
+  · simp only [slashTerm, h, if_true]; exact eq_stripSlash_append u h
+  · simp [slashTerm, stripSlash, h]
+
+theorem endsSlash_slashTerm (u : List Char) : endsSlash (slashTerm u) = true := by
+  rw [slashTerm_eq]; simp [endsSlash]
+
+/-- Every stored backend URL ends in a slash (`getConfiguredHosts`). -/
+theorem C02_config_url_slash_terminated (u : List Char) : endsSlash (configUrl u) = true := by
+  simp only [configUrl, lookup_facts.2.2, if_true]; exact endsSlash_slashTerm u
+
+/-- The comparison of `getBackendLocked` decides exactly "the URL lies under the backend URL". -/
+theorem C02_entry_match_iff_under (e : Entry) (u : List Char) (he : endsSlash e.url = true) :
+    entryMatches (lookupKey u) e = under e.url u := by
+  simp only [entryMatches, lookupKey, lookup_facts.1, lookup_facts.2.1, if_true]
+  rw [slashTerm_eq, eq_stripSlash_append e.url he, prefix_slash_eq_components]
+  simp only [under, components]
+  rw [← eq_stripSlash_append e.url he]
+
+/-- **C02_lookup_owner.** With stored URLs ending in a slash, the backend a URL resolves to is the first
+configured backend the URL lies under — no backend if it lies under none. -/
+theorem C02_lookup_owner (es : List Entry) (u : List Char) (hes : ∀ e ∈ es, endsSlash e.url = true) :
+    lookup es u = (owners es u).head? := by
+  unfold lookup owners
+  induction es with
+  | nil => rfl
+  | cons e es ih =>
+    have he := hes e (by simp)
+    have ih' := ih (fun x hx => hes x (by simp [hx]))
+    simp only [List.find?_cons, List.filter_cons, C02_entry_match_iff_under e u he]
+    cases hu : under e.url u with
+    | true => simp
+    | false => simpa using ih'
+
+
+/-- **C02_hdr_claims.** The backend header of a request resolves to `b` only if the URL it carries lies
+under `b`'s URL; a URL under no configured backend URL is unknown (so: 403, `roomAuth_eq`); and if the
+URL lies under exactly one backend URL (no nested backend URLs), it resolves to that backend. -/
+theorem C02_hdr_claims (es : List Entry) (v : List Char) (hes : ∀ e ∈ es, endsSlash e.url = true) :
+    (∀ b, hdrOf es v = .known b → b ∈ owners es v) ∧
+    (v ≠ [] → owners es v = [] → hdrOf es v = .unknown) ∧
+    (∀ b, v ≠ [] → owners es v = [b] → hdrOf es v = .known b) ∧
+    (hdrOf es v = .absent ↔ v = []) := by
+  have hl := C02_lookup_owner es v hes
+  unfold hdrOf
+  cases v with
+  | nil => simp
+  | cons c cs =>
+    simp only [List.isEmpty_cons, Bool.false_eq_true, if_false, hl]
+    cases ho : owners es (c :: cs) with
+    | nil => simp
+    | cons b bs => simp
+
+/-- The hypotheses of `C02_lookup_owner` / `C02_hdr_claims` hold for a configuration as
+`getConfiguredHosts` stores it, with sibling URLs written with and without the final slash. -/
+example :
+    let es : List Entry := [⟨⟨"b1", [1]⟩, configUrl "http://h/cloud".toList⟩, ⟨⟨"b2", [2]⟩, configUrl "http://h/cloud2/".toList⟩]
+    (∀ e ∈ es, endsSlash e.url = true) ∧ owners es "http://h/cloud2".toList = [⟨"b2", [2]⟩] ∧
+    hdrOf es "http://h/cloud2".toList = .known ⟨"b2", [2]⟩ ∧ hdrOf es "http://h/cloud3/".toList = .unknown ∧
+    hdrOf es [] = .absent := by
+  decide +kernel
+
+/-- Why the terminating slash matters (the comparison this model interprets is pinned by
+`C02_source_facts`): without it a backend URL is also a string prefix of its sibling's URLs, although
+those do not lie under it; with it the sibling resolves to its own backend whatever the order. -/
+theorem C02_prefix_without_slash_is_not_ownership :
+    let cloud := "http://h/cloud/".toList
+    let cloud2 := "http://h/cloud2/".toList
+    let u := "http://h/cloud2/ocs/v2.php".toList
+    let b1 : Backend := ⟨"b1", [1]⟩
+    let b2 : Backend := ⟨"b2", [2]⟩
+    (stripSlash cloud).isPrefixOf u = true ∧ under cloud u = false ∧ under cloud2 u = true ∧
+    lookup [⟨b1, cloud⟩, ⟨b2, cloud2⟩] u = some b2 ∧ lookup [⟨b2, cloud2⟩, ⟨b1, cloud⟩] u = some b2 ∧
+    lookup [⟨b1, cloud⟩, ⟨b2, cloud2⟩] "http://h/cloud".toList = some b1 ∧
+    lookup [⟨b1, cloud⟩, ⟨b2, cloud2⟩] "http://h/clou/".toList = none := by
+  decide +kernel
+
+/-! ## 8. Non-vacuity -/
 
 /-- The hypotheses of the tampering theorems are met by a concrete valid request (toy MAC),
 which the handler accepts and publishes for its backend. -/
